@@ -91,7 +91,10 @@ def header_rules(ctx):
             elif rng == (1, 16) or (rng[0] == 1 and rng[1] == 16):
                 # the mask is 0x01 or 0x10: it must be selected by the parity of the count
                 par = _selected_by_parity(B, mask_op)
-                if par:
+                if par == 'wrong':
+                    ctx.bad('C14.2-longatoms-parity', inst, 'the %s selects the LongAtoms mask with the parity test the wrong way round: 0x01 (low half) for an odd reference count and 0x10 for an even one; '
+                            'the flag lives in the low half of the last flag byte when the count is EVEN' % side, ctx.where(B, ln=st['ln']), key='SHAPE:dist-header:%s:longatoms-parity-inverted' % side)
+                elif par:
                     ctx.ok('C14.2-longatoms-parity', inst, 'mask is 0x01 / 0x10 selected by the parity of the reference count', ctx.where(B, ln=st['ln']))
                 else:
                     ctx.undecided('C14.2-longatoms-parity', inst, 'mask takes the values 0x01/0x10 but the selecting condition was not recognised as a parity test', ctx.where(B, ln=st['ln']))
@@ -291,7 +294,8 @@ def run(ctx):
 
 
 def _selected_by_parity(B, mask_op):
-    """the mask local is assigned constants in branches of a switch on (count % 2 == 0) / (count & 1)"""
+    """the mask local is assigned 0x01 under "the count is even" and 0x10 under "the count is odd" (a test of count % 2 or
+    count & 1 against 0 or 1, in either polarity)"""
     if mask_op['k'] not in ('cp', 'mv'):
         return False
     l = mask_op['pl']['l']
@@ -306,15 +310,29 @@ def _selected_by_parity(B, mask_op):
     if len(defs) < 2:
         return False
     for d in defs:
+        val = None
+        if d[0] == 's' and d[3]['rv']['k'] == 'use' and d[3]['rv']['op']['k'] == 'c':
+            val = d[3]['rv']['op'].get('v')
         okd = False
         for (src, vals, dst) in dominating_edges(B, d[1]):
-            t = B.blocks[src]['t']
-            if t['dty'] == 'bool':
-                source, neg = B.bool_source(t['d'])
-                if source[0] == 'bin':
-                    s = str(canon(B, source[2]['a'])) + str(canon(B, source[2]['b']))
-                    if ("'Rem'" in s and "('const', 2)" in s) or ("'BitAnd'" in s and "('const', 1)" in s):
-                        okd = True
+            sb = B.switch_bool_edges(src)
+            if not sb or sb[0][0] != 'bin':
+                continue
+            rv = sb[0][2]
+            s = str(canon(B, rv['a'])) + str(canon(B, rv['b']))
+            if not (("'Rem'" in s and "('const', 2)" in s) or ("'BitAnd'" in s and "('const', 1)" in s)):
+                continue
+            truth = (dst == sb[1])
+            ca, cb = canon(B, rv['a']), canon(B, rv['b'])
+            k = cb[1] if cb[0] == 'const' else (ca[1] if ca[0] == 'const' else None)
+            if rv['op'] not in ('Eq', 'Ne') or k not in (0, 1):
+                continue
+            # (n % 2 == k) is true  <=>  parity(n) == k
+            parity = k if (truth == (rv['op'] == 'Eq')) else 1 - k
+            if val in (1, 16):
+                if not ((val == 1 and parity == 0) or (val == 16 and parity == 1)):
+                    return 'wrong'
+            okd = True
         if not okd:
             return False
     return True
